@@ -582,6 +582,10 @@ FORMS = ["func", "func", "func", "lit", "method", "ptrmethod", "generic", "neste
 
 def std_driver(name, K, extra_adv, nlo, nhi, ret_type="int"):
     emit = "rt.Emit(rt.YIELD, it.Current())" if ret_type == "int" else "rt.EmitAny(rt.YIELD, it.Current())"
+    peek = emit.replace("rt.YIELD", "rt.RESULT")
+    if ret_type == "func() int":
+        # the consumer calls the yielded function: which receiver / callee it was bound to is observable
+        emit, peek = "rt.Emit(rt.YIELD, it.Current()())", "_ = it.Current()"
     return """func Drive_%(name)s() {
 	a, b, n := rt.NondetInt(1), rt.NondetInt(2), rt.NondetInt(3)
 	g1, g2, g3 := rt.NondetBool(4), rt.NondetBool(5), rt.NondetBool(6)
@@ -605,7 +609,7 @@ def std_driver(name, K, extra_adv, nlo, nhi, ret_type="int"):
 		%(emit)s
 	}
 	rt.Emit(rt.END, 0)
-}""" % {"name": name, "K": K, "extra": extra_adv, "nlo": nlo, "nhi": nhi, "emit": emit, "peek": emit.replace("rt.YIELD", "rt.RESULT")}
+}""" % {"name": name, "K": K, "extra": extra_adv, "nlo": nlo, "nhi": nhi, "emit": emit, "peek": peek}
 
 
 # ---------------------------------------------------------------------------------------------
@@ -2007,6 +2011,9 @@ def c06_consumer(rng, shape):
         return head + "\tvar arr [4]int\n\tq := &arr[0]\n\tj := 0\n\tfor *q = range %s {\n\t\tj++\n\t\tif j >= 4 {\n\t\t\tbreak\n\t\t}\n\t\tq = &arr[j]\n\t}\n\tfor _, d := range arr {\n\t\trt.Emit(49, d)\n\t\tt = (t << 1) ^ d\n\t}\n" % fin + tail
     if shape == "assign_to_map_entry_moving_key":
         return head + "\tm := map[int]int{}\n\tk := 0\n\tfor m[k] = range %s {\n\t\tk++\n\t\tif k >= 3 {\n\t\t\tbreak\n\t\t}\n\t}\n\tfor q := 0; q < 3; q++ {\n\t\trt.Emit(49, m[q])\n\t\tt = (t << 1) ^ m[q]\n\t}\n" % fin + tail
+    if shape == "stored_in_any_type_switch":
+        # iterators stored in interface values and recovered by a type switch / assertion
+        return head + "\tboxes := []any{%s, a, %s}\n\tfor _, bx := range boxes {\n\t\tswitch x := bx.(type) {\n\t\tcase Iter[int]:\n\t\t\tfor v := range x {\n\t\t\t\tt = (t << 1) ^ v\n\t\t\t\tlim++\n\t\t\t\tif lim > 5 {\n\t\t\t\t\tbreak\n\t\t\t\t}\n\t\t\t}\n\t\tcase int:\n\t\t\tt += x\n\t\tcase []Iter[int]:\n\t\t\tt += len(x)\n\t\t}\n\t}\n\tif it, ok := boxes[2].(Iter[int]); ok && it.MoveNext() {\n\t\tt = (t << 1) ^ it.Current()\n\t}\n" % (fin, rng.choice(["GC@(b, a)", "GA@(b, n)"])) + tail
     if shape == "peek_before_range":
         # Current() on an iterator that was never advanced reads the zero value and runs nothing
         return head + "\tit := %s\n\tprev := it.Current()\n\trt.Emit(46, prev)\n\tcur := struct {\n\t\tit   Iter[int]\n\t\tlast int\n\t}{it: %s}\n\tcur.last = cur.it.Current()\n\trt.Emit(46, cur.last)\n\tfor v := range it {\n%s\n\t}\n\tif cur.it.MoveNext() {\n\t\tt = (t << 1) ^ cur.it.Current()\n\t}\n" % (src, fin, indent(c06_loop_body(rng, "v"), 2)) + tail
@@ -2035,7 +2042,7 @@ C06_SHAPES = ["range_define", "range_assign", "nested", "pull_then_range", "rang
               "field_reassigned_in_loop", "index_changed_in_loop", "map_entry_reassigned_in_loop", "operand_evaluated_once",
               "first_match_nested", "first_element",
               "assign_to_element_moving_index", "assign_to_field_moving_pointer", "assign_to_deref_moving_pointer", "assign_to_map_entry_moving_key",
-              "typed_nil_marker", "typed_nil_reset", "loopvar_redeclared_in_body", "loopvar_shadowed_first_stmt", "consumer_generator_switch", "peek_before_range"]
+              "typed_nil_marker", "typed_nil_reset", "loopvar_redeclared_in_body", "loopvar_shadowed_first_stmt", "consumer_generator_switch", "peek_before_range", "stored_in_any_type_switch"]
 
 
 def c06_programs(rng, per_shape):
@@ -2119,6 +2126,8 @@ C13_BODIES = [
     ("deferred_literal_receiver_evaluated_late", "first := &pt@{a, 1}\ncur := first\nfunc() {\n\tdefer func() int { return cur.Add(7) }()\n\tcur = &pt@{b, 2}\n}()\nreturn (first.x << 8) ^ cur.x"),
     ("deferred_literal_callee_evaluated_late", "r := 0\nh := func() int { r += 1; return r }\nfunc() {\n\tdefer func() int { return h() }()\n\th = func() int { r += 100; return r }\n}()\nreturn r + a"),
     ("immediate_literal_call", "v := func() int { return dbl@(a) }()\nw := func() int { return fnv@(b) }()\nreturn (v << 4) ^ w"),
+    ("labelled_break_out_of_condless_loop", "r := 0\nL:\n\tfor {\n\t\tswitch {\n\t\tcase r > a&3:\n\t\t\tbreak L\n\t\t}\n\t\tr++\n\t}\n\tr += 100\n\tif g1 {\n\t\tr += b\n\t}\n\treturn r"),
+    ("labelled_continue_nested_loops", "r := 0\nouter:\n\tfor i := 0; i < 3; i++ {\n\t\tfor j := 0; ; j++ {\n\t\t\tif j > i {\n\t\t\t\tcontinue outer\n\t\t\t}\n\t\t\tr += j + a\n\t\t}\n\t}\n\tr ^= b\n\treturn r"),
     ("closure_capture", "s := 0\nadd := func(d int) { s += d }\nget := func() int { return s }\nadd(a)\nr := get()\nadd(b)\nreturn (r << 4) ^ get()"),
     ("global_state", "cnt@ += a\nr := cnt@\ncnt@ = 0\nreturn r + k@"),
     ("eta_method_expr", "p := pt@{a, b}\nf := func(q pt@) int { return q.Sum() }\nreturn f(p)"),
@@ -2219,6 +2228,8 @@ def c12_injections():
     I.append(("yield_in_switch_init", [("raw", "switch Yield(a + 922); {\ncase g3:\n\tYield(b + 923)\n}")]))
     I.append(("go_yield", [("raw", "go Yield(a + 924)"), Y("b + 925")]))
     I.append(("yield_in_case_expr_call", [("raw", "switch {\ncase func() bool { rt.Emit(rt.EFF, 926); return g3 }():\n\tYield(a + 927)\n}")]))
+    I.append(("ctl_closure_with_defer_in_native_loop_then_break", [("raw", "lt := 0\nfor li := 0; li < 4; li++ {\n\tcf := func() int {\n\t\tdefer func() {}()\n\t\treturn li\n\t}\n\tif cf() > 1 && g3 {\n\t\tbreak\n\t}\n\tif li == 0 {\n\t\tcontinue\n\t}\n\tlt += cf()\n}"), Y("lt + 1005")]))
+    I.append(("ctl_closure_with_labelled_loop_in_native_switch_then_break", [("raw", "lw := 0\nswitch a & 1 {\ncase 0:\n\tcw := func() int {\n\t\tt := 0\n\tLq:\n\t\tfor x := 0; x < 3; x++ {\n\t\t\tfor y := 0; y < 3; y++ {\n\t\t\t\tif y > x {\n\t\t\t\t\tcontinue Lq\n\t\t\t\t}\n\t\t\t\tt++\n\t\t\t}\n\t\t}\n\t\treturn t\n\t}\n\tif g3 {\n\t\tbreak\n\t}\n\tlw = cw()\n}"), Y("lw + 1006")]))
     I.append(("fallthrough_after_yielding_if", [("raw", "switch a & 1 {\ncase 1:\n\tif g3 {\n\t\tYield(a + 996)\n\t}\n\tfallthrough\ncase 0:\n\tYield(b + 997)\n}")]))
     I.append(("fallthrough_after_yielding_switch", [("raw", "switch a & 1 {\ncase 1:\n\tswitch b & 1 {\n\tcase 0:\n\t\tYield(a + 998)\n\t}\n\tfallthrough\ncase 0:\n\tYield(b + 999)\n}")]))
     I.append(("fallthrough_after_yielding_loop", [("raw", "switch a & 1 {\ncase 1:\n\tfor fi := 0; fi < 2; fi++ {\n\t\tYield(fi + 1000)\n\t}\n\tfallthrough\ncase 0:\n\tYield(b + 1001)\n}")]))
@@ -2524,6 +2535,26 @@ ANY_FORMS = [
     ("structlit", "pt@{{{v}, 2}}"), ("structlit_keyed", "pt@{{x: {v}, y: {v} + 1}}"), ("structlit_eff", "pt@{{rt.Eff(952, {v}), rt.Eff(953, b)}}"),
     ("arraylit", "[2]int{{{v}, 3}}"), ("slicelit", "[]int{{{v}, {v} + 1}}"), ("nested", "pt@{{idf@({v}), -{v}}}"), ("anyint", "{v}"), ("negany", "-{v}"),
 ]
+
+
+def funcvalue_programs():
+    """generators whose element type is a function type: the consumer calls what it gets, so the
+    moment at which a method value / function value was taken is observable"""
+    T = "type fcnt@ struct{ v int }\n\nfunc (c fcnt@) Get() int  { return c.v }\nfunc (c *fcnt@) Inc() int { c.v++; return c.v }\nfunc fdecl@() int          { return 77 }\n"
+    bodies = [
+        ("method_value_in_loop", [("raw", "c := fcnt@{v: a}"), ("for", ("decl", "i", "0"), "i < n", ("inc", "i"), [("yield", "c.Get"), ("raw", "c.v += b")]), ("yield", "c.Get")]),
+        ("method_value_after_yield", [("raw", "c := fcnt@{v: a}"), ("yield", "fdecl@"), ("raw", "c.v = b"), ("yield", "c.Get"), ("raw", "c.v++"), ("yield", "c.Get")]),
+        ("pointer_method_value_reassigned", [("raw", "p := &fcnt@{v: a}"), ("for", ("decl", "i", "0"), "i < n", ("inc", "i"), [("yield", "p.Inc"), ("raw", "p = &fcnt@{v: b + i}")]), ("yield", "p.Inc")]),
+        ("function_variable_reassigned", [("raw", "f := func() int { return a }"), ("for", ("decl", "i", "0"), "i < n", ("inc", "i"), [("yield", "f"), ("raw", "j := i\nf = func() int { return b + j }")]), ("yield", "f")]),
+        ("receiver_expression_with_effect", [("raw", "mk := func(v int) fcnt@ {\n\trt.Emit(rt.EFF, 88)\n\treturn fcnt@{v: v}\n}"), ("eff", 1), ("yield", "fdecl@"), ("eff", 2), ("yield", "mk(a).Get"), ("eff", 3)]),
+    ]
+    progs = []
+    for name, body in bodies:
+        pid = "fv_" + name
+        body = [tuple(x.replace("@", pid) if isinstance(x, str) else x for x in st) if st[0] != "for" else
+                ("for", st[1], st[2], st[3], [tuple(x.replace("@", pid) if isinstance(x, str) else x for x in b) for b in st[4]]) for st in body]
+        progs.append(Program(pid, body, helpers=T.replace("@", pid), named_result=True, family="fnv", ret_type="func() int", tags={"funcvalue:" + name}))
+    return progs
 
 
 def exprform_programs():
